@@ -162,7 +162,7 @@ func TestC03(t *testing.T) {
 	r := rec.New("C03")
 	defer r.Flush()
 	r.Rule("CircuitFixed built as cmd/compile.go builds it from a circuit-A instance restricted to k in {1,2} query rounds; generated assignments: limb vectors = true limbs with 0..4 limbs replaced by limb+k*p (k in 1..4, up to the largest k keeping the value < r, and random k), by arbitrary 64-bit values, or by values >= 2^64; public values = the field packing of the supplied limbs, the packing of the true limbs, random 128-bit or random field values.  Oracle: ACCEPT <=> limbs == true limbs (integers) and values == big-endian packing of the true limbs.  One bound-monitored execution additionally requires the packing equalities to be wrap-free for all admissible limb values and bounded by 2^128.  Non-trivial = limbs or values differ from the true ones; distinct = (limbs, values).")
-	r.Assume("Solidity side (truncation of the four values to 128 bits) is read, not executed", "engine semantics (C06)")
+	r.Assume("Solidity side (secondHash: truncation of values 2 and 3 to 128 bits) is modelled natively from the contract source, not executed on an EVM", "engine semantics (C06)")
 
 	var rp c03Case
 	if is, err := rec.LoadReplay(&rp); is {
@@ -318,6 +318,25 @@ func TestC03(t *testing.T) {
 			if pa[j].BitLen() > 128 {
 				rt.Fatalf("pack exceeds 128 bits")
 			}
+		}
+		// model of the contract's secondHash (uint128 truncation of values 2 and 3, concatenated): for
+		// values the circuit accepts it must be exactly the big-endian bytes of limbs 8..15, and a value
+		// differing by 2^128 (which the circuit must reject, see "one+2^128" above) would alias
+		sh := func(v [4]*big.Int) string {
+			m := new(big.Int).Sub(pow2(128), big.NewInt(1))
+			return fmt.Sprintf("%032x%032x", new(big.Int).And(v[2], m), new(big.Int).And(v[3], m))
+		}
+		want := ""
+		for _, l := range a[8:] {
+			want += fmt.Sprintf("%08x", l)
+		}
+		if sh(pa) != want {
+			r.Fail(rt, "C03/contract-model", nil, "secondHash model of the packed values %v is %s, limbs 8..15 are %s", pa, sh(pa), want)
+		}
+		alias := pa
+		alias[2] = new(big.Int).Add(pa[2], pow2(128))
+		if sh(alias) != sh(pa) {
+			rt.Fatalf("model error: truncation does not alias")
 		}
 		r.Case("pack-injective", a[i] != b[i], fmt.Sprint(a, b), nil)
 		if same != (a[i] == b[i]) {
